@@ -52,33 +52,19 @@ def facts : List InitFact := [
   { id := 1, hasPatchFn := false, chained := false,
     toks := [.loadGuard, .brGuard .ret .body, .storeGuard, .callInit 0, .act, .brRet],
     imports := [0], goList := [0] },
-  -- c12f/t1/deep/bravo.init
+  -- c12f/t1/bravo.init
   { id := 2, hasPatchFn := false, chained := false,
-    toks := [.loadGuard, .brGuard .ret .body, .storeGuard, .callInit 0, .act, .brRet],
-    imports := [0], goList := [0] },
+    toks := [.loadGuard, .brGuard .ret .body, .storeGuard, .callInit 0, .callInit 1, .act, .brRet],
+    imports := [0, 1], goList := [0, 1] },
   -- c12f/t1.init
-  { id := 4, hasPatchFn := false, chained := false,
-    toks := [.loadGuard, .brGuard .ret .body, .storeGuard, .callInit 0, .callInit 2, .callInit 1, .act, .brRet],
-    imports := [0, 2, 1], goList := [0, 1, 2] },
-  -- c12f/t2/tr.init
-  { id := 0, hasPatchFn := false, chained := false,
-    toks := [.loadGuard, .brGuard .ret .body, .storeGuard, .act, .brRet],
-    imports := [], goList := [] },
-  -- c12f/t2/deep/beta.init
-  { id := 1, hasPatchFn := false, chained := false,
-    toks := [.loadGuard, .brGuard .ret .body, .storeGuard, .callInit 0, .act, .brRet],
-    imports := [0], goList := [0] },
-  -- c12f/t2.init
-  { id := 2, hasPatchFn := false, chained := false,
-    toks := [.loadGuard, .brGuard .ret .body, .storeGuard, .callInit 1, .callInit 0, .act, .brRet],
-    imports := [1, 0], goList := [0, 1] }]
+  { id := 3, hasPatchFn := false, chained := false,
+    toks := [.loadGuard, .brGuard .ret .body, .storeGuard, .callInit 0, .callInit 2, .act, .brRet],
+    imports := [0, 2], goList := [0, 2] }]
 
 def entries : List EntryFact := [
   -- c12f/t0
   { calls := [.rtInit, .runtimeInit, .mainInit, .mainMain] },
   -- c12f/t1
-  { calls := [.rtInit, .runtimeInit, .mainInit, .mainMain] },
-  -- c12f/t2
   { calls := [.rtInit, .runtimeInit, .mainInit, .mainMain] }]
 
 end LlgoVerif.Gen.C12
